@@ -296,7 +296,11 @@ def curve_predicates(cx):
     if fn:
         Z2 = 'fp_sqr($self.z)'
         want = 'Eq(u256_cmp(phi(fp_sqr($self.y) | fp_sqr($self.y)), phi(fp_add(SM9_MODP_MONT_FIVE, fp_mul($self.x, fp_sqr($self.x))) | fp_add(fp_mul($self.x, fp_sqr($self.x)), fp_mul(SM9_MODP_MONT_FIVE, fp_mul(%s, fp_sqr(%s)))))), 0)' % (Z2, Z2)
-        cx.add('I-CURVE', 'sm9/is_on_curve', [v for _, v in r] == [want], 'y^2 == x^3 + 5 (Z = 1) / y^2 == x^3 + 5 z^6: %s' % r, fn.loc())
+        # the same two comparisons written as two returns (early return for the affine case)
+        A_ = 'Eq(u256_cmp(fp_sqr($self.y), fp_add(SM9_MODP_MONT_FIVE, fp_mul($self.x, fp_sqr($self.x)))), 0)'
+        J_ = 'Eq(u256_cmp(fp_sqr($self.y), fp_add(fp_mul($self.x, fp_sqr($self.x)), fp_mul(SM9_MODP_MONT_FIVE, fp_mul(%s, fp_sqr(%s))))), 0)' % (Z2, Z2)
+        split_ok = sorted(v for _, v in r) == sorted([A_, J_]) and any('SM9_MODP_MONT_ONE' in ' '.join(c) for c, v in r if v == A_)
+        cx.add('I-CURVE', 'sm9/is_on_curve', [v for _, v in r] == [want] or split_ok, 'y^2 == x^3 + 5 (Z = 1) / y^2 == x^3 + 5 z^6: %s' % r, fn.loc())
 
 
 def acc_defs(cx, inst, fn, var, rng, call=None):
